@@ -10,7 +10,8 @@ RULE = ("Cases = (row-length vector with empty rows anywhere, dtype, content inc
         "/ NaN / inf where the operation is exact, operation in {cumsum, add/subtract/bitwise_xor.accumulate, sort, unique "
         "(+counts), diff of order 0..5}, spelling, operand fresh or pending view).  Oracle = the numpy function applied to "
         "each row: result row lengths, values, dtype, row count and order; operand unmodified.  Non-trivial = the array has "
-        "an empty row (esp. trailing), a row of length 1, or duplicate values in a row.")
+        "an empty row (esp. trailing), a row of length 1, or duplicate values in a row."
+        "  Every scan / reordering is asked twice, the result returned first being overwritten by the caller in between.")
 ASSUMPTIONS = ["float add/subtract accumulate is asserted on the exactly representable (dyadic, finite) sub-domain; the "
                "inexact / non-finite region is known finding K2 and exercised by a directed probe",
                "bool subtract.accumulate and float bitwise_xor.accumulate are refused by numpy itself: not asserted",
@@ -46,7 +47,7 @@ def body_cumsum(case, ctx):
         if ax is None:
             expect_array(got, np.cumsum(np_flat(a)), "cumsum-flat")
         elif a["dt"] in gen.INT_DT:
-            expect_ragged(got, [np.cumsum(r) for r in rows], "cumsum", exp_dtype=np.cumsum(np_flat(a)[:1]).dtype if sum(a["lens"]) else None)
+            expect_ragged(got, [np.cumsum(r) for r in rows], "cumsum", exp_dtype=np.cumsum(np_flat(a)[:1]).dtype if len(a["lens"]) else None)
         elif sum(a["lens"]):
             ctx.label("non-integer-rejected")
             expect_refused(got, "cumsum-non-integer", dtype=a["dt"])
@@ -69,7 +70,7 @@ def body_accumulate(case, ctx):
             ctx.label("numpy-refuses-not-asserted")
             return
         got = lib_twice(lambda: uf.accumulate(ra, axis=case["axis"]))
-    expect_ragged(got, exp.value[:-1], "accumulate", exp_dtype=exp.value[-1].dtype if sum(a["lens"]) else None, uf=case["uf"])
+    expect_ragged(got, exp.value[:-1], "accumulate", exp_dtype=exp.value[-1].dtype if len(a["lens"]) else None, uf=case["uf"])
     expect_unchanged(ra, rows, a["dt"], "accumulate-operand")
 
 
@@ -148,7 +149,7 @@ def body_diff(case, ctx):
     if any(len(r) <= n for r in rows):
         ctx.label("row-too-short")
         ctx.nt()
-    expect_ragged(got, exp, "diff", exp_dtype=np.diff(np_flat(a)[:2], n=min(n, 1)).dtype if sum(a["lens"]) else None, n=n)
+    expect_ragged(got, exp, "diff", exp_dtype=np.diff(np_flat(a)[:2], n=min(n, 1)).dtype if len(a["lens"]) else None, n=n)
     expect_unchanged(ra, rows, a["dt"], "diff-operand")
 
 
